@@ -341,7 +341,8 @@ pub proof fn lemma_match_bit(mb: usize, result: usize)
 pub proof fn lemma_shl1_xor(r: usize, b: bool)
     requires r < 0x100,
     ensures ((r << 1) ^ (if b { 1usize } else { 0usize })) == 2 * r + (if b { 1nat } else { 0nat }),
+        ((r << 1) | (if b { 1usize } else { 0usize })) == 2 * r + (if b { 1nat } else { 0nat }),   // the same step written with `|`
 {
     let bu: usize = if b { 1usize } else { 0usize };
-    assert(((r << 1) ^ bu) == 2 * r + bu) by (bit_vector) requires r < 0x100, bu <= 1;
+    assert(((r << 1) ^ bu) == 2 * r + bu && ((r << 1) | bu) == 2 * r + bu) by (bit_vector) requires r < 0x100, bu <= 1;
 }
